@@ -584,6 +584,11 @@ class Interp:
                 sd = METHOD_MODELS.get((type(o), "__setitem__"))
                 if sd:
                     return sd(self, o, k, value)
+                if isinstance(o, dict) and isinstance(k, (SInt, SU64)):
+                    # the key takes finitely many values on this path (e.g. a masked id): one path per value
+                    v = self.case_split_value(k)
+                    o[np.uint64(v) if isinstance(k, SU64) else v] = value
+                    return
                 raise Unsupported("store with symbolic key/index into native container")
             try:
                 o[k] = value
@@ -1281,6 +1286,12 @@ class Interp:
             mm = METHOD_MODELS.get((type(o), "__getitem__"))
             if mm:
                 return mm(self, o, k)
+            if isinstance(o, dict) and isinstance(k, (SInt, SU64)):
+                # python compares the key with the stored ones: one path per stored key it can equal
+                for kk in list(o):
+                    if isinstance(kk, (int, np.integer)) and self.truth(k == (SU64(core._u64(int(kk))) if isinstance(k, SU64) else int(kk))):
+                        return o[kk]
+                raise RaiseSig(KeyError("key"))
             raise Unsupported(f"symbolic subscript on {type(o).__name__}")
         try:
             return o[k]
@@ -1288,6 +1299,19 @@ class Interp:
             raise
         except Exception as ex:
             raise RaiseSig(ex)
+
+    def case_split_value(self, k, limit=16):
+        """a concrete value of the symbolic integer k, chosen by forking (at most `limit` values)"""
+        c = ctx()
+        t = k.t if isinstance(k, SU64) else core._i(k)
+        for _ in range(limit):
+            if c.solver.check() != core.Z.sat:
+                raise core.PathInfeasible()
+            mv = c.solver.model().eval(t, model_completion=True)
+            v = mv.as_long()
+            if self.truth(SBool(t == mv)):
+                return v
+        raise Unsupported("a symbolic container key with more than %d possible values" % limit)
 
     def slice_list(self, o, k):
         raise Unsupported("symbolic slice of a python list")
